@@ -560,6 +560,17 @@ class Frame:
             prim = self.ip.prims.get(cn)
             if prim is not None:
                 return prim(self, i, None, [self.eval(a) for a in args])
+            if op == "()" and len(args) >= 1:
+                cl_ = self._peek_closure(args[0])
+                if cl_ is None:
+                    v0 = None
+                    try:
+                        v0 = self.eval(args[0])
+                    except AnalysisBroken:
+                        v0 = None
+                    cl_ = v0 if isinstance(v0, Closure) else None
+                if cl_ is not None:
+                    return cl_(*[self.eval(a) for a in args[1:]])
             if op in ("++", "--") and len(args) >= 1:
                 v = self.eval(args[0])
                 if isinstance(v, ListIter):
